@@ -1,6 +1,8 @@
 """C20 Enums are open, canonical and immutable."""
 from __future__ import annotations
 
+import os
+
 import copy
 import dataclasses
 import json
@@ -438,7 +440,21 @@ def run_shard(shard) -> Result:
             nbn: Dict[int, List[str]] = {}
             for nm, v in defn:
                 nbn.setdefault(v, []).append(nm)
-            run_enum(E, H, attrs, nbn, canonical(defn), rng, res, w)
+            try:
+                run_enum(E, H, attrs, nbn, canonical(defn), rng, res, w)
+            except Exception as e:
+                # an exception that comes out of the tree under test at a place where the monitors expect none (an undeclared
+                # number refused by try_value, for example) is an observation about the SUT, not a harness failure
+                import traceback as _tb
+
+                from .. import env as _env
+
+                frames = _tb.extract_tb(e.__traceback__)
+                if frames and os.path.realpath(frames[-1].filename).startswith(os.path.realpath(_env.SRC)):
+                    res.violation("open", ["direct", "library-raised:" + type(e).__name__, frames[-1].name],
+                                  f"enum {defn}: {type(e).__name__}: {e} (raised in {frames[-1].name})", w)
+                else:
+                    raise
         return res
     try:
         b = corpus.build_item(shard["item"])
